@@ -1,5 +1,5 @@
 (* Proofs/C06_AllPsm.v - the histories of C06_all extended by path_segments_mut sessions (all five editor
-   operations, arguments outside F-C06-7) and by the mutators whose canonicity C02 proves outside its known step
+   operations, arguments outside F-C06-7), by set_path on the authority-less '/'-led layout (C06_SpliceNoAuth.v) and by the mutators whose canonicity C02 proves outside its known step
    classes (C02_Reach4.canon_op3: set_ip_host, set_host(Some), set_scheme, quirks protocol, set_path / quirks
    pathname with ANY &str on URLs with an authority).  ReachC6p: every record of such a history is Canon, hence
    wfh, auth_end_ok, all_calls (C06_all) - and psm_calls: a session on such a record (with an authority) returns a
@@ -19,7 +19,7 @@ From RU Require Import Base.Prelude Base.Utf8 Base.Utf8Facts Base.Outcome_c15 Mo
   Proofs.C02_Form Proofs.C02_SetCred Proofs.C02_SetCredCanon Proofs.C02_QPort Proofs.C02_Reach3
   Proofs.C02_SetHostFrame Proofs.C02_SetHostCanon Proofs.C02_SetScheme Proofs.C02_PathSetter Proofs.C02_SetPath Proofs.C02_Reach4
   Proofs.C06_Agree Proofs.C06_AgreeUrl Proofs.C06_Splice Proofs.C06_SpliceAuth Proofs.C06_SpliceCred
-  Proofs.C06_SplicePath Proofs.C06_SpliceHost Proofs.C06_All Proofs.C06_SegPush Proofs.C06_PushCanon.
+  Proofs.C06_SplicePath Proofs.C06_SpliceHost Proofs.C06_All Proofs.C06_SegPush Proofs.C06_PushCanon Proofs.C06_SpliceNoAuth.
 Open Scope N_scope.
 Open Scope list_scope.
 
@@ -57,6 +57,11 @@ Inductive ReachC6p : url -> Prop :=
     ReachC6p u -> has_authority_b u = true -> forallb (hostarg (sp_of u)) x = true ->
     set_host dbg hp hpo hd u (Some x) = Some (u', SOk) -> empty_host_ok u u' ->
     nlen (ser u') <= U32_MAX_P -> ReachC6p u'
+| P_path_noauth u rest u' :
+    ReachC6p u -> has_authority_b u = false -> byte_eqb (ser u) (scheme_end u + 1) 47 = true ->
+    path_start u = scheme_end u + 1 -> usv_list (47 :: rest) -> forallb no_qh (47 :: rest) = true ->
+    inp_starts_with_char 47 rest = false -> set_path dbg u (47 :: rest) = Some u' -> nlen (ser u') <= U32_MAX_P ->
+    C06_HostNone.path_starts_with_2slash u' = false -> ReachC6p u'
 | P_psm u ops u' :
     ReachC6p u -> has_authority_b u = true -> Forall psm_op_usv ops -> Forall psm_op_plain ops ->
     path_segments_session dbg u ops = Some (u', SOk) -> nlen (ser u') <= U32_MAX_P -> ReachC6p u'.
@@ -107,6 +112,7 @@ Theorem ReachC6p_Canon u : ReachC6p u -> Canon u.
 Proof.
   induction 1 as [ovr input u Hu Hn Hov Hp | ovr b input u Hr IH Hu Ht Hov Hp | u o u' Hr IH Ht Ha Hk Ho Hb
                  | u ops u' Hr IH Hops Hs Hb | u x u' Hr IH Hau Hx Hq Hpa E Hb | u x u' Hr IH Hau Hxa E Hemp Hb
+                 | u rest u' Hr IH Hna Hsl Hps Hx Hq Hn2 E Hb H2
                  | u ops u' Hr IH Hau Hu Hpl E Hb].
   - exact (parse_Canon dbg hp hpo hd HRT ovr input u HAb Hu Hn Hov Hp).
   - exact (join_tail_Canon dbg hp hpo hd HRT ovr b input u IH Hu Ht Hov Hp).
@@ -114,6 +120,7 @@ Proof.
   - exact (qpm_Canon dbg hp hpo hd HRT u ops u' IH Hops Hs Hb).
   - exact (C06_SplicePath.set_path_Canon dbg hp hpo hd HRT u x u' IH Hau Hx Hq Hpa E Hb).
   - exact (set_host_Canon dbg hp hpo hd HRT HAb u x u' IH Hau Hxa E Hemp Hb).
+  - exact (set_path_noauth_Canon dbg hp hpo hd u rest u' IH Hna Hsl Hps Hx Hq Hn2 E Hb H2).
   - exact (psm_Canon dbg hp hpo hd HRT u ops u' IH Hau Hu Hpl E Hb).
 Qed.
 
